@@ -636,7 +636,7 @@ pub fn two_lives(cfg: &FdCfg) -> (Tally, Vec<Viol>) {
                     let mut o = Observer::new(*cfg);
                     let mut bad: Option<(&'static str, String, String)> = None;
                     let res = guarded(|| {
-                        let mut run = |o: &mut Observer, n: u64, d: u64| -> Option<(&'static str, String, String)> {
+                        let run = |o: &mut Observer, n: u64, d: u64| -> Option<(&'static str, String, String)> {
                             for _ in 0..n {
                                 o.step(Ev::Fresh);
                                 o.advance_raw(d);
